@@ -21,7 +21,7 @@ import ast
 from fractions import Fraction
 from typing import Callable, Dict, List, Optional, Tuple
 
-from .model import dotted, norm_text
+from .model import dotted, norm_text, ufunc_as_operator
 
 Poly = Dict[tuple, Fraction]
 
@@ -418,6 +418,9 @@ class ShiftInterp:
         if isinstance(e, ast.BinOp):
             return self._binop(e, env)
         if isinstance(e, ast.Call):
+            op_ = ufunc_as_operator(self.ext_name(e), e)
+            if op_ is not None:
+                return self.eval(op_, env)
             return self._call(e, env)
         if isinstance(e, (ast.ListComp, ast.GeneratorExp)):
             env2 = dict(env)
